@@ -1161,10 +1161,35 @@ def fam_mxev(P, n, tier):
     return out
 
 
+def fam_exharg(P, n, tier):
+    """bounded-exhaustive ARGUMENT texts: every string up to a length bound over the alphabet that matters for
+    each variable type, as the single argument of a WRITE (20 lines per scenario; the variable keeps its value
+    between lines and the oracle tracks it).  Numeric: 0 1 2 9 - + x X a F ,  (decimal / hex grammar, signs,
+    prefix, separators); buffers: \" \\ n a 0 F , A (quotes, escapes, hex digits, separators)."""
+    import itertools
+    out = []
+    num_alpha = ['0', '1', '2', '9', '-', '+', 'x', 'X', 'a', 'F', ',']
+    buf_alpha = ['"', '\\', 'n', 'a', '0', 'F', ',', 'A']
+    Ln = 3 if tier == 'quick' else 4
+    Lb = 4 if tier == 'quick' else 5
+    plans = [('i', INT, 1, num_alpha, Ln), ('u', UINT, 1, num_alpha, Ln), ('h', HEX, 1, num_alpha, Ln),
+             ('b', BUFHEX, 2, buf_alpha, Lb), ('s', BUFSTR, 3, buf_alpha, Lb)]
+    for tag, vt, size, alpha, L in plans:
+        texts = [''.join(t) for k in range(0, L + 1) for t in itertools.product(alpha, repeat=k)]
+        for ci in range(0, len(texts), 20):
+            sc = Scn('xa%s%d' % (tag, ci // 20), cap=1, buf_size=32, ubuf_size=-1, fill=0, mutex=False)
+            sc.add_group([Cmd('+V', vars=[Var(vt, size, RW, init=bytes([0x5a] * size))])])
+            for t in texts[ci:ci + 20]:
+                sc.feed('AT+V=' + t + '\n')
+                sc.drain(600)
+            out.append(sc)
+    return out
+
+
 FAMILIES = {
     'mixed': fam_mixed, 'names': fam_names, 'num': fam_num, 'buf': fam_buf, 'cap': fam_cap, 'rc': fam_rc,
     'events': fam_events, 'hold': fam_hold, 'mutex': fam_mutex, 'lines': fam_lines, 'rt': fam_rt,
-    'wo': fam_wo, 'list': fam_list, 'bytes': fam_bytes, 'sched': fam_sched, 'units': fam_units, 'lanes': fam_lanes, 'search': fam_search, 'exh': fam_exh, 'mxev': fam_mxev,
+    'wo': fam_wo, 'list': fam_list, 'bytes': fam_bytes, 'sched': fam_sched, 'units': fam_units, 'lanes': fam_lanes, 'search': fam_search, 'exh': fam_exh, 'mxev': fam_mxev, 'exharg': fam_exharg,
 }
 
 
